@@ -22,8 +22,6 @@ theorem isTrue_and3 (a b : Val) : (and3 a b).isTrue = (a.isTrue && b.isTrue) := 
     | (rename_i x y; cases x <;> cases y <;> rfl)
     | (rename_i x; cases x <;> rfl)
 
-theorem isTrue_and3' (a b : Val) : (and3 a b).isTrue = (a.isTrue && b.isTrue) := isTrue_and3 a b
-
 theorem conj_holds (f : Expr) (fs : List Expr) (r : Row) :
     ((fs.foldl (fun acc g => Expr.bin .and acc (g.mapCols stripPlaceholder)) f).eval r).isTrue =
       ((f.eval r).isTrue && fs.all fun g => ((g.mapCols stripPlaceholder).eval r).isTrue) := by
